@@ -8,6 +8,7 @@ package offset
 // was created, written by the callback and synced without error.
 
 //@ func (*Offset).saveToTmp
+//@   option check-nil yes
 //@   ghost created bool = false
 //@   ghost saved bool = false
 //@   ghost synced bool = false
@@ -29,6 +30,7 @@ package offset
 //@     pure
 
 //@ func (*Offset).Save
+//@   option check-nil yes
 //@   ghost ok bool = false
 //@   ghost nrename int = 0
 //@   ensures nrename <= 1 && (nrename == 1 ==> ok)
@@ -46,6 +48,7 @@ package offset
 // opened once.
 
 //@ func (*Offset).Load
+//@   option check-nil yes
 //@   ghost nopen int = 0
 //@   ensures nopen == 1
 //@   callee Open(name) (f, err)
@@ -64,6 +67,7 @@ package offset
 //@     pure
 
 //@ func NewOffset
+//@   option check-nil yes
 //@   ensures result != nil && result.path == path
 
 // yamlValue: the document is decoded straight into the caller's value, once, and
@@ -71,6 +75,7 @@ package offset
 // through float64 rounds int64 offsets above 2^53 - possibly upwards).
 
 //@ func (*yamlValue).Load
+//@   option check-nil yes
 //@   ghost nun int = 0
 //@   ensures result == nil ==> nun == 1
 //@   callee ReadAll(r) (b, err)
@@ -81,6 +86,7 @@ package offset
 //@     set nun := nun + 1
 
 //@ func (*yamlValue).Save
+//@   option check-nil yes
 //@   ghost nm int = 0
 //@   ensures result == nil ==> nm == 1
 //@   callee Marshal(v) (b, err)
